@@ -345,6 +345,32 @@ func c03(run *ev.Run, tier string) {
 	c03Overlapping(run, tier, &st)
 	afterFailedBuilds(run, "C03", func(f string, raw []byte, p *dec.Package) []problem { return digestProblems(f, p, &st) })
 	c03SourceDateEpochSet(run, tier, &st)
+	// sources whose stat size is not the number of bytes a read returns (procfs: size 0,
+	// real content): whatever a format ships of them, the sizes and digests it states
+	// are those of the shipped bytes
+	for _, src := range []string{"/proc/crypto", "/proc/iomem", "/proc/filesystems"} {
+		if b, err := os.ReadFile(src); err != nil || len(b) == 0 {
+			continue
+		}
+		s := &gen.Spec{Name: "procsrc", Arch: "amd64", Version: "1.0.0", Maintainer: "P <p@example.com>", Description: "d", MTime: 1500000000}
+		s.RPM.BuildHost = "verif-host"
+		s.Contents = []*gen.Content{{Src: src, Dst: "/opt/procsrc/snapshot.txt"}}
+		for _, f := range formats {
+			run.Case("source-with-stat-size-0|"+src+"|"+f, true)
+			res := buildYAML(s.YAML(), f)
+			if res.Err != nil || res.Panic != "" {
+				continue // refusing such a source is loud
+			}
+			p := dec.Decode(f, res.Bytes, false)
+			if len(p.Errs) > 0 {
+				run.Violate("C03/"+f+"/undecodable", map[string]any{"source": src, "errors": p.Errs})
+				continue
+			}
+			for _, pr := range digestProblems(f, p, &st) {
+				run.Violate("C03/"+f+"/source-with-stat-size-0/"+pr.kind, map[string]any{"source": src, "detail": ev.Short(pr.detail, 300)})
+			}
+		}
+	}
 	// the command line tool rebuilding to the same target after the payload shrank
 	if bin := nfpmBin(run); bin != "" {
 		cliRebuildSmaller(run, bin, "C03", func(f, how string, atTarget, fresh []byte) {
